@@ -25,6 +25,45 @@ def own_first(getmid):
     return (getmid - 32767 + 1) % 65536
 
 
+def dtls_many_between(rng):
+    """Connection created by a real dtls.Server: a request is answered, 63..70 requests with other message IDs are
+    answered on the same connection, then a duplicate of the first datagram arrives (within the lifetime)."""
+    out = []
+    for typ, beh in (("con", "pb"), ("con", "none"), ("con", "pbe"), ("non", "pb"), ("con", "empty")):
+        for n in (63, 64, 65, 70):
+            mid0 = rng.randrange(0, 8000)
+            ops = ["own 0 dtlssrv", "recv %s %d a1b2 %s" % (typ, mid0, beh)]
+            for k in range(n):
+                t2 = rng.choice(["con", "non"])     # every one of them gets a reply, i.e. a cache entry
+                ops.append("recv %s %d %04x %s" % (t2, 9000 + k, k, rng.choice(["pb", "pbe", "none"] if t2 == "con" else ["pb", "pbe"])))
+                if k == n // 2 and rng.random() < 0.5:
+                    ops.append("tick")
+            ops.append("recv %s %d a1b2 %s" % (typ, mid0, beh))
+            out.append(" | ".join(ops))
+    return out
+
+
+def udpsrv_lines(rng, reps):
+    """Connection made by a real udp.Server on a 0.0.0.0 listener (peer table): the application's NewConn(peer) in every
+    position relative to the first copy and the duplicate."""
+    out = []
+    for beh in ("pb", "pbe", "none", "empty"):
+        for pattern in ("r n d", "n r d", "r d n d", "r n n d", "r n d t d", "r r2 n d d2", "n r n d"):
+            mid = rng.randrange(0, 60000)
+            ops = ["own 0 udpsrv"]
+            for p in pattern.split():
+                if p in ("r", "d"):
+                    ops.append("recv con %d aabb %s" % (mid, beh))
+                elif p in ("r2", "d2"):
+                    ops.append("recv con %d ccdd pbe" % ((mid + 1) % 65536))
+                elif p == "n":
+                    ops.append("newconn")
+                else:
+                    ops.append("tick")
+            out.append(" | ".join(ops))
+    return out * reps
+
+
 def gen_scenario(rng):
     """One scenario line; returns (line, classes) where classes is a set of coverage labels."""
     cls = set()
@@ -170,10 +209,24 @@ def nontrivial(line):
     return len(mids) != len(set(mids))
 
 
+def level_of(line):
+    f = line.split("|")[0].split()
+    return f[2] if len(f) >= 3 and f[0] == "own" else "hand"
+
+
 def run_lines(ctx, art, lines, tag="x"):
-    impl = common.run_test_harness(ctx, art["test"], "TestC05", lines, tag=tag, timeout=600)
-    if impl is None or len(impl) != len(lines):
-        return None, None, None
+    # the datagram-server level needs real sockets (no synctest bubble): its own test function
+    idx_u = [i for i, l in enumerate(lines) if level_of(l) == "udpsrv"]
+    idx_m = [i for i, l in enumerate(lines) if level_of(l) != "udpsrv"]
+    impl = [None] * len(lines)
+    for idx, test, tg in ((idx_m, "TestC05", tag), (idx_u, "TestC05UDPServer", tag + "u")):
+        if not idx:
+            continue
+        out = common.run_test_harness(ctx, art["test"], test, [lines[i] for i in idx], tag=tg, timeout=600)
+        if out is None or len(out) != len(idx):
+            return None, None, None
+        for i, o in zip(idx, out):
+            impl[i] = o
     model = judge = None
     if art.get("driver"):
         rc, model, _ = common.pipe_lines([art["driver"], "model"], lines)
@@ -208,13 +261,25 @@ def explore(ctx, art):
     rng = random.Random(ctx.seed)
     thorough = ctx.tier == "thorough"
     lines = corpus_lines() + fixed_lines()
+    # the same histories on connections that the library builds itself: accepted by a dtls.Server, made by a udp.Server
+    srv = dtls_many_between(random.Random(ctx.seed + 11)) + udpsrv_lines(random.Random(ctx.seed + 12), 3 if thorough else 1)
+    srv += [l.replace("own 0 |", "own 0 dtlssrv |", 1) for l in fixed_lines() if l.startswith("own 0 |")]
+    lines += srv
     ncorpus = len(lines)
     classes = {}
-    for _ in range(120000 if thorough else 12000):
+    nd = 0
+    for k in range(120000 if thorough else 12000):
         l, cls = gen_scenario(rng)
         lines.append(l)
         for c in cls:
             classes[c] = classes.get(c, 0) + 1
+        if k % 8 == 0:
+            # every eighth seeded scenario also on a connection accepted by a dtls.Server
+            f = l.split(" | ", 1)
+            lines.append(f[0] + " dtlssrv | " + f[1] if len(f) == 2 else f[0] + " dtlssrv")
+            nd += 1
+    classes["level-dtlssrv (seeded scenarios repeated on a server-made connection)"] = nd
+    classes["level-dtlssrv/udpsrv (fixed families)"] = len(srv)
     impl, model, judge = run_lines(ctx, art, lines)
     if impl is None:
         return
